@@ -439,7 +439,6 @@ func vschedCfg(prefix []int, env bool) vsched.Config {
 	return vsched.Config{Prefix: prefix, EnvChoices: env, Watchdog: 120 * time.Second}
 }
 
-
 // observeRaces records race reports of an execution that was abandoned by pruning (the report
 // was produced by the prefix that did run).
 func (e *Explorer) observeRaces(x *Exec) {
